@@ -33,7 +33,7 @@ ASSUMPTIONS = [
     "dies, the root's own watch still reports, root deletion yields exactly one DirDeletedEvent(root) and a stopped emitter",
     "transient failures are injected at the module-global inotify_add_watch of watchdog.observers.inotify_c (errno via ctypes.set_errno)",
 ]
-MINIMUMS = {"quick": {"root_probes_judged": 300, "root_deletions_judged": 50, "faults_fired": 30, "selfstop_hold_cases_reached": 10},
+MINIMUMS = {"quick": {"root_probes_judged": 300, "root_deletions_judged": 50, "faults_fired": 30, "selfstop_hold_cases_reached": 10, "api_hold_cases_reached": 80},
             "thorough": {"root_probes_judged": 8000, "root_deletions_judged": 1000}}
 WALL_CAP = {"quick": 170, "thorough": 3000}
 
@@ -243,6 +243,8 @@ def plan(tier, seed, jobs):
         for j in range(3):
             specs.append({"kind": "faults", "n": 150, "seed": seed, "j": j, "budget_s": 50})
         specs.append({"kind": "selfstop", "reps": 2, "seed": seed, "budget_s": 60})
+        for j in range(3):
+            specs.append({"kind": "apiholds", "seed": seed, "j": j, "of": 3, "budget_s": 60})
     else:
         for j in range(jobs * 3):
             specs.append({"kind": "hostile", "n": 5000, "seed": seed, "j": j, "budget_s": 600, "observer": "inotify"})
@@ -252,6 +254,8 @@ def plan(tier, seed, jobs):
             specs.append({"kind": "faults", "n": 4000, "seed": seed, "j": j, "budget_s": 600})
         for j in range(4):
             specs.append({"kind": "selfstop", "reps": 10, "seed": seed + j, "budget_s": 600})
+        for j in range(jobs):
+            specs.append({"kind": "apiholds", "seed": seed, "j": j, "of": jobs, "budget_s": 900, "reps": 8})
     return specs
 
 
@@ -290,6 +294,48 @@ def run_batch(spec):
                     if b.expired():
                         break
                     run_selfstop_hold(b, ln, partner, spec["seed"] + rep)
+    elif k == "apiholds":
+        # the "no sequence of API calls" clause: library threads parked at every discovered line of the read/emit/close paths
+        # while stop()/unschedule()/root removal runs; any library thread dying with an exception is a violation
+        from wdverif import apireal
+        from wdverif.env import osledger
+
+        led = osledger.install()
+        pts = [p for p in apireal.discover("inotify", spec["seed"])]
+        ins = apireal.instr_for_pipeline(spec["seed"])
+        r = rng_for(spec["seed"], "C07h", spec["j"])
+        with ins:
+            for rep in range(spec.get("reps", 1)):
+                for i, pt in enumerate(pts):
+                    if i % spec["of"] != spec["j"] or b.expired():
+                        continue
+                    closer = pt[0].startswith("wdv-call-")
+                    for partner in (["touch", "rmroot"] if closer else ["stop", "unschedule", "rmroot"]):
+                        nth = r.choice([1, 1, 2])
+                        ev = r.random() < 0.5
+                        out = apireal.hold_case(ins, led, "inotify", pt, nth, partner, ev)
+                        b.case()
+                        b.count("api_hold_cases_reached" if out["reached"] else "api_hold_cases_not_reached")
+                        if out["reached"]:
+                            b.add("api_hold_points_reached", f"{pt[0]}:{pt[1]}:{pt[2]}")
+                            b.nontrivial(["apihold", list(map(str, pt)), nth, partner, ev])
+                        for x in out["exceptions"]:
+                            b.violation(f"library-thread-died:{x['exc'].split(':')[0]}",
+                                        f"{x['thread']} died with {x['exc']} while parked at {pt[1]}:{pt[2]} (role {pt[0]}) and {partner}() ran",
+                                        witness={"point": list(map(str, pt)), "partner": partner, "nth": nth, "event": ev, "traceback": x["tb"], "log": out["log"]},
+                                        replay_spec={"kind": "apihold1", "point": list(pt), "partner": partner, "nth": nth, "event": ev})
+    elif k == "apihold1":
+        from wdverif import apireal
+        from wdverif.env import osledger
+
+        led = osledger.install()
+        ins = apireal.instr_for_pipeline(1)
+        with ins:
+            for _ in range(3):
+                out = apireal.hold_case(ins, led, "inotify", tuple(spec["point"]), spec["nth"], spec["partner"], spec["event"])
+                b.case()
+                for x in out["exceptions"]:
+                    b.violation(f"library-thread-died:{x['exc'].split(':')[0]}", f"{x['thread']} died with {x['exc']}", witness={"tb": x["tb"]})
     elif k == "selfstop1":
         for _ in range(3):
             run_selfstop_hold(b, spec["line"], spec["partner"], 1)
